@@ -552,7 +552,9 @@ void World::deliver(InFlight& f)
         // C02 "returns promptly", decided deterministically: the work of one decode call (basic-block edges of library
         // code) must stay linear in the size of the buffer. Calibrated on the unchanged tree (evidence key
         // probes.max-edges-per-call-permille-of-bound): the largest observed ratio is far below 1.
-        const uint64_t bound = 4000 + 60 * static_cast<uint64_t>(n);
+        // (+ a term for the endpoints seen so far: growing the pending table rehashes it, amortised constant per call
+        // but a spike in the call that triggers it)
+        const uint64_t bound = 4000 + 60 * static_cast<uint64_t>(n) + 8 * static_cast<uint64_t>(ref.st.size());
         const uint64_t permille = edges * 1000 / bound;
         uint64_t& mx = res.probes["max-edges-per-call-permille-of-bound"];
         if (permille > mx)
